@@ -328,6 +328,78 @@ pub fn features_of(files: &[SrcFile], builtins: &BTreeSet<String>) -> Vec<String
         }
     }
     let by_name: BTreeMap<String, &ClassOutline> = classes.iter().map(|c| (c.name.clone(), c)).collect();
+    // F10: a written union two members of which are related by inheritance ({Int, Float},
+    // {Parent, Child}, also as element types)
+    {
+        fn ancestors(name: &str, by: &BTreeMap<String, &ClassOutline>, depth: usize, out: &mut BTreeSet<String>) {
+            if depth > 8 {
+                return;
+            }
+            match name {
+                "Int" => {
+                    out.insert("Float".into());
+                    out.insert("Complex".into());
+                }
+                "Float" => {
+                    out.insert("Complex".into());
+                }
+                _ => {}
+            }
+            if let Some(c) = by.get(name) {
+                for p in &c.parents {
+                    if out.insert(p.clone()) {
+                        ancestors(p, by, depth + 1, out);
+                    }
+                }
+            }
+        }
+        for f in files {
+            let chars: Vec<char> = f.text.chars().collect();
+            let mut i = 0;
+            while i < chars.len() {
+                if chars[i] == '{' {
+                    // a type position: preceded (ignoring blanks) by ':' or '->' or ',' / '[' inside a type
+                    let mut j = i;
+                    while j > 0 && chars[j - 1] == ' ' {
+                        j -= 1;
+                    }
+                    let prev = if j > 0 { chars[j - 1] } else { ' ' };
+                    let type_pos = prev == ':' || (prev == '>' && j > 1 && chars[j - 2] == '-') || prev == '[';
+                    // find the matching brace
+                    let mut depth = 0;
+                    let mut k = i;
+                    while k < chars.len() {
+                        if chars[k] == '{' {
+                            depth += 1;
+                        } else if chars[k] == '}' {
+                            depth -= 1;
+                            if depth == 0 {
+                                break;
+                            }
+                        } else if chars[k] == '\n' {
+                            break;
+                        }
+                        k += 1;
+                    }
+                    if type_pos && k < chars.len() && chars[k] == '}' {
+                        let inner: String = chars[i + 1..k].iter().collect();
+                        let members: Vec<String> = inner
+                            .split(',')
+                            .filter_map(|m| ident_at(m.trim()).map(|s| s.to_string()))
+                            .collect();
+                        for a in &members {
+                            let mut anc = BTreeSet::new();
+                            ancestors(a, &by_name, 0, &mut anc);
+                            if members.iter().any(|b| b != a && anc.contains(b)) {
+                                feats.insert("union_of_related_types".to_string());
+                            }
+                        }
+                    }
+                }
+                i += 1;
+            }
+        }
+    }
     // all member names reachable from a class (own + ancestors), cycle-safe
     fn members_of(name: &str, by: &BTreeMap<String, &ClassOutline>, depth: usize, out: &mut BTreeSet<String>) {
         if depth > 8 {
